@@ -62,14 +62,13 @@ CLAIMED["C09"] = dict(
          "_nothing_else); C09_root_md(+_fresh) — root metadata per entry name; C09_other_roots — other trees and header untouched. "
          "Targeted appends through the real dispatch and path matching, by a zipper lemma (updateAt_encode): C09_target_new_branch, "
          "C09_target_new_single, C09_target_below, C09_target_yes_append, C09_target_no_append, C09_target_over_branch / C09_target_over_single "
-         "(append-over of an inner node = appendOne at its parent), C09_target_new_below, C09_emdpath_root_new_single, C09_emdpath_self (emdpath naming the node itself = no emdpath), C09_emdpath_parent (naming its parent: the same), C09_emdpath_from_root (the Root saved under emdpath root/a/b = append of the runtime node a/b), C09_emdpath_downstream (emdpath naming a descendant of the saved node = append of that descendant), C09_emdpath_parent_new (node the file lacks, emdpath = its parent, tree=True/False = no emdpath), C09_emdpath_unrelated_refused (emdpath naming an unrelated node, e.g. a sibling with a similar name: refused, nothing written), C09_foreign_branch, C09_foreign_single, C09_foreign_below, C09_foreign_root (+ _alone_refused) — exactly the selection is added exactly "
+         "(append-over of an inner node = appendOne at its parent), C09_target_new_below, C09_emdpath_root_new_single, C09_emdpath_self (emdpath naming the node itself = no emdpath), C09_emdpath_parent (naming its parent: the same), C09_emdpath_from_root (the Root saved under emdpath root/a/b = append of the runtime node a/b), C09_emdpath_downstream (emdpath naming a descendant of the saved node = append of that descendant), C09_emdpath_parent_new (node the file lacks, emdpath = its parent, tree=True/False = no emdpath), C09_emdpath_parent_new_below (the same with tree=None: the node is not written, its children are merged into the PARENT by the union rule), C09_emdpath_namesake (emdpath naming a node that merely has a child called like the saved node: appended in place at the node's own treepath = no emdpath), C09_emdpath_unrelated_refused (emdpath naming an unrelated node, e.g. a sibling with a similar name: refused, nothing written), C09_foreign_branch, C09_foreign_single, C09_foreign_below, C09_foreign_root (+ _alone_refused) — exactly the selection is added exactly "
          "there — with C09_target_frame (every path not through the target keeps its content). Sequences: C09_closed (every "
          "theorem applies again after any append) and C09_twice.",
     note="Every leaf of the dispatch for a root in the file without emdpath is proved (node in file x tree option x mode; node one "
          "beyond the file x tree option), and the emdpath leaves for a root in the file are reduced to them by equivalence "
-         "theorems (emdpath = the node / its parent / a descendant / from the Root). Not proved, modelled branch for branch and "
-         "compared only: an emdpath whose target merely HAS a child named like the saved node (the code then appends in place), "
-         "tree=None with the parent emdpath of a new node (children merged into the parent). "
+         "theorems (emdpath = the node / its parent / a descendant / from the Root / a namesake's parent), the parent emdpath of a new node "
+         "with tree=None by its own union statement: every leaf of appendCore for a root in the file has a theorem. "
          "compatKids is the explicit 'common name space' domain: no runtime child named like an object of the body it lands in, "
          "old children not named like objects of the replacing body (the former hypothesis 'scratch name _tmp_<name> free' is gone: "
          "running the real code at that excluded point showed a refusal, repaired in /repo by fix d955578). Bodies opaque.",
@@ -188,7 +187,9 @@ CLAIMED["C02"] = dict(
          "(mkArray_ok). Also C02_stored_length, C02_data_units, C02_labels, C02_body_length, C02_readback_calibrated.",
     note="dtype, shape and element bytes of `data` are h5py's contract (H2), sampled by the data token on every case. The float "
          "instance of the arithmetic (Lean Float, bit-identical to numpy for the ramp) is exercised by the correspondence, the "
-         "theorem holds for any. Excluded by hypothesis: a non-stack Array whose last dim name is '_labels_' (known finding C15-K3).",
+         "theorem holds for any ONE arithmetic; dim vectors held in a numpy dtype narrower than 64 bits go through numpy's mixed-width "
+         "arithmetic, which the codec does not model: every eighth case has such vectors and is decided on the real code by the "
+         "round-trip predicate alone. Excluded by hypothesis: a non-stack Array whose last dim name is '_labels_' (known finding C15-K3).",
     technique="Lean 4 proofs parametric in the arithmetic (full save/read composition) + bit-exact differential correspondence at file and read-back level",
     design="7 C02")
 
